@@ -1,11 +1,10 @@
 /-
 Invariants of the tables proved over `LTrans`:
-* `Inv2` — an id is never at the same time in a slot, in a release bit and in `pending`
-           (needs: no id reuse while a QoS 2 flow awaits PUBCOMP, #11);
-* `Inv3` — `inflight` = occupied slots + release bits (needs `Inv2` and no v5 failure-reason
-           PUBREC / PUBCOMP, #15/#16);
-* `Inv4` — a parked publish waits for an id that a slot or a release bit holds
-           (needs: no `clean` with a parked publish #12, no v5 failure-reason ack on its id #14).
+* `Inv2` — an id is never at the same time in a slot, in a release bit and in `pending`; the
+           unnumbered publish is the last element of `pending`; nothing is parked while `pending`
+           is not empty (every run on which `Inv0` holds);
+* `Inv3` — `inflight` = occupied slots + release bits (needs `Inv2`);
+* `Inv4` — a parked publish waits for an id that a slot or a release bit holds (every run).
 -/
 import Proofs.Lemmas.ClientTrans
 namespace Client
@@ -47,9 +46,12 @@ structure Inv2 (l : LState) : Prop where
   disj : ∀ i : Nat, occAt l.st i = true → relContains l.st i = false
   pendClear : ∀ r ∈ l.pending, relContains l.st (reqId r) = false ∧ occAt l.st (reqId r) = false
   pendNd : (l.pending.map reqId).Nodup
+  /-- only the last element of `pending` may be unnumbered -/
+  pendPos : ∀ r ∈ l.pending.dropLast, reqId r ≠ 0
+  colPend : l.st.collision.isSome = true → l.pending = []
 
 theorem Inv2.new (ver : Version) (max : Nat) (m : Bool) : Inv2 (LState.new ver max m) := by
-  refine ⟨?_, by intro r hr; simp [LState.new] at hr, by simp [LState.new]⟩
+  refine ⟨?_, by intro r hr; simp [LState.new] at hr, by simp [LState.new], by simp [LState.new], by simp [LState.new]⟩
   intro i hi
   rw [occAt_iff] at hi
   obtain ⟨x, hx⟩ := hi
@@ -74,32 +76,37 @@ theorem relOnesFrom_sorted (l : List Bool) (off : Nat) :
 theorem relOnes_nodup (s : State) : (relOnes s).Nodup :=
   (relOnesFrom_sorted s.outgoingRel 0).1.imp (fun h => Nat.ne_of_lt h)
 
-theorem map_reqId_pubRequests (l : List (Option Pub)) : (pubRequests l).map reqId = slotIds l := by
-  unfold pubRequests slotIds
+theorem map_reqId_pubs (l : List Request) (h : ∀ r ∈ l, ∃ p, r = .publish p) : l.map reqId = pubIds l := by
   induction l with
   | nil => rfl
-  | cons a l ih => cases a <;> simp [ih, reqId]
+  | cons a l ih =>
+    obtain ⟨p, rfl⟩ := h a (by simp)
+    have : pubIds (.publish p :: l) = p.pkid :: pubIds l := by simp [pubIds]
+    simp only [List.map_cons, reqId, this]
+    rw [ih (fun r hr => h r (List.mem_cons_of_mem _ hr))]
 
-theorem map_reqId_cleanRequests (s : State) :
-    (cleanRequests s).map reqId = pubIds (cleanPubs s) ++ relOnes s := by
+theorem map_reqId_cleanRequests {s : State} (hs : SInv s) :
+    (cleanRequests s).map reqId = pubIds (cleanPubs s) ++ relOnes s ++ (if s.collision.isSome then [0] else []) := by
   have h1 : (cleanPubs s).map reqId = pubIds (cleanPubs s) := by
-    unfold cleanPubs
-    split
-    · rw [map_reqId_pubRequests, pubIds_pubRequests]
-    · rw [map_reqId_pubRequests, pubIds_pubRequests]
-  simp [cleanRequests, h1, reqId, Function.comp_def]
+    apply map_reqId_pubs
+    intro r hr
+    obtain ⟨p, hp, _⟩ := (mem_cleanPubs hs r).mp hr
+    exact ⟨p, hp⟩
+  have h2 : (cleanParked s).map reqId = if s.collision.isSome then [0] else [] := by
+    unfold cleanParked; cases s.collision <;> simp [reqId]
+  simp [cleanRequests, h1, h2, reqId, Function.comp_def]
 
 theorem mem_pubIds_cleanPubs (s : State) (hs : SInv s) (i : Nat) : i ∈ pubIds (cleanPubs s) ↔ occAt s i = true := by
   rw [mem_pubIds, occAt_iff]
   constructor
   · rintro ⟨p, hp, hpi⟩
-    obtain ⟨p', hp', hm⟩ := (mem_cleanPubs s _).mp hp
+    obtain ⟨p', hp', hm⟩ := (mem_cleanPubs hs _).mp hp
     cases hp'
     obtain ⟨j, hj⟩ := List.mem_iff_getElem?.mp hm
     have := (hs.slotId j p hj).1
     exact ⟨p, by rw [← hpi, this]; exact hj⟩
   · rintro ⟨x, hx⟩
-    exact ⟨x, (mem_cleanPubs s _).mpr ⟨x, rfl, List.mem_iff_getElem?.mpr ⟨i, hx⟩⟩, (hs.slotId i x hx).1⟩
+    exact ⟨x, (mem_cleanPubs hs _).mpr ⟨x, rfl, List.mem_iff_getElem?.mpr ⟨i, hx⟩⟩, (hs.slotId i x hx).1⟩
 
 theorem cleanState_tables (s : State) (j : Nat) : occAt (cleanState s) j = false ∧ relContains (cleanState s) j = false := by
   constructor
@@ -110,56 +117,148 @@ theorem cleanState_tables (s : State) (j : Nat) : occAt (cleanState s) j = false
     | false => rfl
     | true => rw [relContains_eq] at h; simp [cleanState, List.getElem?_map] at h
 
+/-- an element of `pending` other than an unnumbered publish carries an id ≥ 1 -/
+theorem reqId_pos_of {s : State} {pd : List Request} (h0 : Inv0 ⟨s, pd⟩) (r : Request) (hr : r ∈ pd)
+    (hnum : ∀ p, r = .publish p → p.pkid ≠ 0) : reqId r ≠ 0 := by
+  have hok := h0.pendWF r hr
+  cases r with
+  | publish p => exact hnum p rfl
+  | pubrel i => simp only [PendOK] at hok; simp only [reqId]; omega
+  | subscribe n => simp [PendOK] at hok
+  | unsubscribe => simp [PendOK] at hok
+  | pingreq => simp [PendOK] at hok
+  | disconnect => simp [PendOK] at hok
+  | puback j => simp [PendOK] at hok
+  | pubrec j => simp [PendOK] at hok
+  | other => simp [PendOK] at hok
+
+theorem mem_dropLast_of_cons {α} (a : α) (l : List α) (x : α) (h : x ∈ l.dropLast) : x ∈ (a :: l).dropLast := by
+  cases l with
+  | nil => simp at h
+  | cons b l => rw [List.dropLast_cons_cons]; exact List.mem_cons_of_mem _ h
+
+theorem head_mem_dropLast {α} (a b : α) (l : List α) : a ∈ (a :: b :: l).dropLast := by
+  rw [List.dropLast_cons_cons]; simp
+
+/-- the table part of `Inv2` after an update that keeps the other facts -/
+theorem occAt_set_set {s s' : State} {i : Nat} {c : Pub} (he : s'.outgoingPub = (s.outgoingPub.set i none).set i (some c))
+    (hlt : i < s.outgoingPub.length) (j : Nat) : occAt s' j = if i = j then true else occAt s j := by
+  unfold occAt
+  rw [he]
+  simp only [List.getElem?_set, List.length_set]
+  by_cases hij : i = j
+  · subst hij; simp [hlt]
+  · simp [hij]
+
+/-- a numbered publish at the head of `pending` finds its id free -/
+theorem Inv2.head_free {s : State} {p : Pub} {rest : List Request} (h : Inv2 ⟨s, .publish p :: rest⟩) :
+    ¬ busyId s p.pkid := by
+  have := h.pendClear (.publish p) (by simp)
+  simp only [reqId] at this
+  rintro (⟨x, hx⟩ | hr)
+  · have h' := (occAt_iff s p.pkid).mpr ⟨x, hx⟩
+    rw [this.2] at h'; cases h'
+  · rw [this.1] at hr; cases hr
+
+theorem Inv2.unnumbered_last {s : State} {p : Pub} {rest : List Request} (h : Inv2 ⟨s, .publish p :: rest⟩)
+    (hid : p.pkid = 0) : rest = [] := by
+  cases rest with
+  | nil => rfl
+  | cons b l =>
+    have := h.pendPos (.publish p) (head_mem_dropLast _ _ _)
+    simp only [reqId] at this
+    exact absurd hid this
+
+theorem Inv2.col_none {s : State} {r : Request} {rest : List Request} (h : Inv2 ⟨s, r :: rest⟩) : s.collision = none := by
+  cases hc : s.collision with
+  | none => rfl
+  | some c => have := h.colPend (by simp [hc]); simp at this
+
 theorem Inv2.step {s : State} {pd : List Request} {op : LOp} {s' : State} {pd' : List Request}
-    (hs : SInv s) (h : Inv2 ⟨s, pd⟩) (hn : ¬ idReuseAwaitingComp ⟨s, pd⟩ op) (ht : LTrans s pd op s' pd') :
+    (h0 : Inv0 ⟨s, pd⟩) (h : Inv2 ⟨s, pd⟩) (ht : LTrans s pd op s' pd') :
     Inv2 ⟨s', pd'⟩ := by
-  obtain ⟨h1, h2, h3⟩ := h
-  simp only at h1 h2 h3
+  have hs := h0.sinv
+  have hh := h
+  obtain ⟨h1, h2, h3, h4, h5⟩ := h
+  simp only at h1 h2 h3 h4 h5 hs
+  -- updates that leave both tables alone
+  have same : ∀ s1 : State, s1.outgoingPub = s.outgoingPub → s1.outgoingRel = s.outgoingRel →
+      (s1.collision.isSome = true → pd = []) → Inv2 ⟨s1, pd⟩ := by
+    intro s1 e1 e2 e4
+    refine ⟨?_, ?_, h3, h4, e4⟩
+    · intro i hi; rw [relContains_congr e2]; exact h1 i (by rw [← occAt_congr e1]; exact hi)
+    · intro r hr; rw [relContains_congr e2, occAt_congr e1]; exact h2 r hr
+  -- slot `i` freed
+  have freed : ∀ (s1 : State) (i : Nat) (x : Pub), s.outgoingPub[i]? = some (some x) →
+      s1.outgoingPub = s.outgoingPub.set i none → s1.outgoingRel = s.outgoingRel →
+      s1.collision = s.collision → Inv2 ⟨s1, pd⟩ := by
+    intro s1 i x hx e1 e2 e4
+    have hlt := getElem?_lt_of_some hx
+    refine ⟨?_, ?_, h3, h4, by rw [e4]; exact h5⟩
+    · intro j hj
+      rw [relContains_congr e2]
+      rw [occAt_of_set e1 hlt j] at hj
+      by_cases hij : i = j
+      · subst hij; simp at hj
+      · simp only [hij, if_false] at hj; exact h1 j hj
+    · intro r' hr
+      have := h2 r' hr
+      rw [relContains_congr e2, occAt_of_set e1 hlt]
+      refine ⟨this.1, ?_⟩
+      by_cases hij : i = reqId r'
+      · simp [hij]
+      · simp only [hij, if_false]; exact this.2
+  -- slot `i` freed and taken by the parked publish (so `pending` is empty)
+  have retaken : ∀ (s1 : State) (i : Nat) (x c : Pub), s.outgoingPub[i]? = some (some x) → s.collision = some c →
+      s1.outgoingPub = (s.outgoingPub.set i none).set i (some c) → s1.outgoingRel = s.outgoingRel → Inv2 ⟨s1, pd⟩ := by
+    intro s1 i x c hx hcol e1 e2
+    have hlt := getElem?_lt_of_some hx
+    have hpd : pd = [] := h5 (by simp [hcol])
+    subst hpd
+    have hocc : occAt s i = true := (occAt_iff s i).mpr ⟨x, hx⟩
+    refine ⟨?_, by intro r hr; simp at hr, by simp, by simp, fun _ => rfl⟩
+    intro j hj
+    rw [relContains_congr e2]
+    rw [occAt_set_set e1 hlt j] at hj
+    by_cases hij : i = j
+    · subst hij; exact h1 i hocc
+    · simp only [hij, if_false] at hj; exact h1 j hj
   cases ht with
-  | skip => exact ⟨h1, h2, h3⟩
+  | skip => exact hh
   | quiet _ _ hc =>
-    obtain ⟨e1, e2, e3, e4, e5⟩ := core_eqs hc
-    refine ⟨?_, ?_, h3⟩
-    · intro i hi; rw [relContains_congr e2]; exact h1 i (by rw [← occAt_congr e1]; exact hi)
-    · intro r hr; rw [relContains_congr e2, occAt_congr e1]; exact h2 r hr
+    obtain ⟨e1, e2, e3, e4, e5, e6⟩ := core_eqs hc
+    exact same s' e1 e2 (by rw [e4]; exact h5)
   | nextId u _ hpd hg hu hc =>
-    have e1 : s'.outgoingPub = s.outgoingPub := congrArg Core.pub hc
-    have e2 : s'.outgoingRel = s.outgoingRel := congrArg Core.rel hc
-    refine ⟨?_, ?_, h3⟩
-    · intro i hi; rw [relContains_congr e2]; exact h1 i (by rw [← occAt_congr e1]; exact hi)
-    · intro r hr; rw [relContains_congr e2, occAt_congr e1]; exact h2 r hr
-  | storeFresh q t _ hpd hg hq hslot hc =>
+    exact same s' (congrArg Core.pub hc) (congrArg Core.rel hc) (by rw [show s'.collision = s.collision from congrArg Core.col hc]; exact h5)
+  | storeFresh q t _ hpd hg hq hslot hrel hc =>
     have e1 : s'.outgoingPub = s.outgoingPub.set (nextPkidVal s) (some ⟨q, nextPkidVal s, t, none⟩) := congrArg Core.pub hc
     have e2 : s'.outgoingRel = s.outgoingRel := congrArg Core.rel hc
     have hlt := getElem?_lt_of_some hslot
-    refine ⟨?_, by intro r hr; simp at hr, by simp⟩
+    refine ⟨?_, by intro r hr; simp at hr, by simp, by simp, fun _ => rfl⟩
     intro i hi
     rw [relContains_congr e2]
     rw [occAt_of_set e1 hlt i] at hi
     by_cases hni : nextPkidVal s = i
-    · subst hni
-      cases hr : relContains s (nextPkidVal s) with
-      | false => rfl
-      | true => exact absurd ⟨hq, hpd, by rw [hpd]; exact hg, hr⟩ hn
+    · subst hni; exact hrel
     · simp only [hni, if_false] at hi; exact h1 i hi
-  | park q t _ x hpd hg hq hslot hc =>
+  | parkFresh q t _ hpd hg hq hbusy hc =>
     have e1 : s'.outgoingPub = s.outgoingPub := congrArg Core.pub hc
     have e2 : s'.outgoingRel = s.outgoingRel := congrArg Core.rel hc
-    refine ⟨?_, by intro r hr; simp at hr, by simp⟩
+    refine ⟨?_, by intro r hr; simp at hr, by simp, by simp, fun _ => rfl⟩
     intro i hi; rw [relContains_congr e2]; exact h1 i (by rw [← occAt_congr e1]; exact hi)
-  | replayPub p rest _ hpd hslot hc =>
+  | replayPub p rest _ hpd hid hslot hrel hc =>
     subst hpd
     have e1 : s'.outgoingPub = s.outgoingPub.set p.pkid (some p) := congrArg Core.pub hc
     have e2 : s'.outgoingRel = s.outgoingRel := congrArg Core.rel hc
+    have e4 : s'.collision = s.collision := congrArg Core.col hc
     have hlt := getElem?_lt_of_some hslot
-    have hp := h2 (.publish p) (by simp)
-    simp only [List.map_cons, List.nodup_cons, reqId] at h3 hp
-    refine ⟨?_, ?_, h3.2⟩
+    simp only [List.map_cons, List.nodup_cons, reqId] at h3
+    refine ⟨?_, ?_, h3.2, fun r hr => h4 r (mem_dropLast_of_cons _ _ _ hr), by rw [e4, hh.col_none]; simp⟩
     · intro i hi
       rw [relContains_congr e2]
       rw [occAt_of_set e1 hlt i] at hi
       by_cases hni : p.pkid = i
-      · subst hni; exact hp.1
+      · subst hni; exact hrel
       · simp only [hni, if_false] at hi; exact h1 i hi
     · intro r hr
       have := h2 r (List.mem_cons_of_mem _ hr)
@@ -167,13 +266,38 @@ theorem Inv2.step {s : State} {pd : List Request} {op : LOp} {s' : State} {pd' :
       have hne : p.pkid ≠ reqId r := by
         intro he; exact h3.1 (by rw [he]; exact List.mem_map_of_mem hr)
       simp only [hne, if_false]; exact this
+  | replayPark p rest _ hpd hid hbusy hc =>
+    subst hpd; exact absurd hbusy hh.head_free
+  | replayFresh p rest _ hpd hid hslot hrel hc =>
+    subst hpd
+    have hrest := hh.unnumbered_last hid
+    subst hrest
+    have e1 : s'.outgoingPub = s.outgoingPub.set (nextPkidVal s) (some { p with pkid := nextPkidVal s }) := congrArg Core.pub hc
+    have e2 : s'.outgoingRel = s.outgoingRel := congrArg Core.rel hc
+    have hlt := getElem?_lt_of_some hslot
+    refine ⟨?_, by intro r hr; simp at hr, by simp, by simp, fun _ => rfl⟩
+    intro i hi
+    rw [relContains_congr e2]
+    rw [occAt_of_set e1 hlt i] at hi
+    by_cases hni : nextPkidVal s = i
+    · subst hni; exact hrel
+    · simp only [hni, if_false] at hi; exact h1 i hi
+  | replayFreshPark p rest _ hpd hid hbusy hc =>
+    subst hpd
+    have hrest := hh.unnumbered_last hid
+    subst hrest
+    have e1 : s'.outgoingPub = s.outgoingPub := congrArg Core.pub hc
+    have e2 : s'.outgoingRel = s.outgoingRel := congrArg Core.rel hc
+    refine ⟨?_, by intro r hr; simp at hr, by simp, by simp, fun _ => rfl⟩
+    intro i hi; rw [relContains_congr e2]; exact h1 i (by rw [← occAt_congr e1]; exact hi)
   | replayRel i rest _ hpd hi hc =>
     subst hpd
     have e1 : s'.outgoingPub = s.outgoingPub := congrArg Core.pub hc
     have e2 : s'.outgoingRel = s.outgoingRel.set i true := congrArg Core.rel hc
+    have e4 : s'.collision = s.collision := congrArg Core.col hc
     have hp := h2 (.pubrel i) (by simp)
     simp only [List.map_cons, List.nodup_cons, reqId] at h3 hp
-    refine ⟨?_, ?_, h3.2⟩
+    refine ⟨?_, ?_, h3.2, fun r hr => h4 r (mem_dropLast_of_cons _ _ _ hr), by rw [e4, hh.col_none]; simp⟩
     · intro j hj
       rw [occAt_congr e1] at hj
       rw [relContains_of_set e2 hi j]
@@ -188,93 +312,33 @@ theorem Inv2.step {s : State} {pd : List Request} {op : LOp} {s' : State} {pd' :
       simp only [hne, if_false]; exact this
   | puback i r _ o he =>
     cases he with
-    | oob _ hh hc =>
-      obtain ⟨e1, e2, e3, e4, e5⟩ := core_eqs hc
-      refine ⟨?_, ?_, h3⟩
-      · intro j hj; rw [relContains_congr e2]; exact h1 j (by rw [← occAt_congr e1]; exact hj)
-      · intro r' hr; rw [relContains_congr e2, occAt_congr e1]; exact h2 r' hr
-    | empty _ hh hc =>
-      have e1 : s'.outgoingPub = s.outgoingPub := congrArg Core.pub hc
-      have e2 : s'.outgoingRel = s.outgoingRel := congrArg Core.rel hc
-      refine ⟨?_, ?_, h3⟩
-      · intro j hj; rw [relContains_congr e2]; exact h1 j (by rw [← occAt_congr e1]; exact hj)
-      · intro r' hr; rw [relContains_congr e2, occAt_congr e1]; exact h2 r' hr
-    | freed _ x hh _ hc =>
-      have e1 : s'.outgoingPub = s.outgoingPub.set i none := congrArg Core.pub hc
-      have e2 : s'.outgoingRel = s.outgoingRel := congrArg Core.rel hc
-      have hlt := getElem?_lt_of_some hh
-      refine ⟨?_, ?_, h3⟩
-      · intro j hj
-        rw [relContains_congr e2]
-        rw [occAt_of_set e1 hlt j] at hj
-        by_cases hij : i = j
-        · subst hij; simp at hj
-        · simp only [hij, if_false] at hj; exact h1 j hj
-      · intro r' hr
-        have := h2 r' hr
-        rw [relContains_congr e2, occAt_of_set e1 hlt]
-        refine ⟨this.1, ?_⟩
-        by_cases hij : i = reqId r'
-        · simp [hij]
-        · simp only [hij, if_false]; exact this.2
-    | released _ x c hh hv hcol hci hc =>
-      have e1 : s'.outgoingPub = (s.outgoingPub.set i none).set i (some c) := congrArg Core.pub hc
-      have e2 : s'.outgoingRel = s.outgoingRel := congrArg Core.rel hc
-      have hlt := getElem?_lt_of_some hh
-      have hocc : occAt s i = true := (occAt_iff s i).mpr ⟨x, hh⟩
-      have key : ∀ j, occAt s' j = if i = j then true else occAt s j := by
-        intro j
-        unfold occAt
-        rw [e1]
-        simp only [List.getElem?_set, List.length_set]
-        by_cases hij : i = j
-        · subst hij; simp [hlt]
-        · simp [hij]
-      refine ⟨?_, ?_, h3⟩
-      · intro j hj
-        rw [relContains_congr e2]
-        rw [key j] at hj
-        by_cases hij : i = j
-        · subst hij; exact h1 i hocc
-        · simp only [hij, if_false] at hj; exact h1 j hj
-      · intro r' hr
-        have := h2 r' hr
-        rw [relContains_congr e2, key]
-        refine ⟨this.1, ?_⟩
-        by_cases hij : i = reqId r'
-        · rw [← hij, hocc] at this; simp at this
-        · simp only [hij, if_false]; exact this.2
+    | unsol _ hx hc =>
+      obtain ⟨e1, e2, e3, e4, e5, e6⟩ := core_eqs hc
+      exact same s' e1 e2 (by rw [e4]; exact h5)
+    | acked x _ hx he =>
+      cases he with
+      | plain _ hnc hc => exact freed s' i x hx (congrArg Core.pub hc) (congrArg Core.rel hc) (congrArg Core.col hc)
+      | released _ c hcol hci hc =>
+        subst hci
+        exact retaken s' c.pkid x c hx hcol (congrArg Core.pub hc) (congrArg Core.rel hc)
   | pubrec i r _ o he =>
     cases he with
-    | unsol _ hh hc =>
-      obtain ⟨e1, e2, e3, e4, e5⟩ := core_eqs hc
-      refine ⟨?_, ?_, h3⟩
-      · intro j hj; rw [relContains_congr e2]; exact h1 j (by rw [← occAt_congr e1]; exact hj)
-      · intro r' hr; rw [relContains_congr e2, occAt_congr e1]; exact h2 r' hr
-    | failed _ x hh hv hc =>
-      have e1 : s'.outgoingPub = s.outgoingPub.set i none := congrArg Core.pub hc
-      have e2 : s'.outgoingRel = s.outgoingRel := congrArg Core.rel hc
-      have hlt := getElem?_lt_of_some hh
-      refine ⟨?_, ?_, h3⟩
-      · intro j hj
-        rw [relContains_congr e2]
-        rw [occAt_of_set e1 hlt j] at hj
-        by_cases hij : i = j
-        · subst hij; simp at hj
-        · simp only [hij, if_false] at hj; exact h1 j hj
-      · intro r' hr
-        have := h2 r' hr
-        rw [relContains_congr e2, occAt_of_set e1 hlt]
-        refine ⟨this.1, ?_⟩
-        by_cases hij : i = reqId r'
-        · simp [hij]
-        · simp only [hij, if_false]; exact this.2
-    | moved _ x hh hv hi hc =>
+    | unsol _ hx hc =>
+      obtain ⟨e1, e2, e3, e4, e5, e6⟩ := core_eqs hc
+      exact same s' e1 e2 (by rw [e4]; exact h5)
+    | failed x _ hx hv he =>
+      cases he with
+      | plain _ hnc hc => exact freed s' i x hx (congrArg Core.pub hc) (congrArg Core.rel hc) (congrArg Core.col hc)
+      | released _ c hcol hci hc =>
+        subst hci
+        exact retaken s' c.pkid x c hx hcol (congrArg Core.pub hc) (congrArg Core.rel hc)
+    | moved _ x hx hv hi hc =>
       have e1 : s'.outgoingPub = s.outgoingPub.set i none := congrArg Core.pub hc
       have e2 : s'.outgoingRel = s.outgoingRel.set i true := congrArg Core.rel hc
-      have hlt := getElem?_lt_of_some hh
-      have hocc : occAt s i = true := (occAt_iff s i).mpr ⟨x, hh⟩
-      refine ⟨?_, ?_, h3⟩
+      have e4 : s'.collision = s.collision := congrArg Core.col hc
+      have hlt := getElem?_lt_of_some hx
+      have hocc : occAt s i = true := (occAt_iff s i).mpr ⟨x, hx⟩
+      refine ⟨?_, ?_, h3, h4, by rw [e4]; exact h5⟩
       · intro j hj
         rw [occAt_of_set e1 hlt j] at hj
         rw [relContains_of_set e2 hi j]
@@ -288,46 +352,125 @@ theorem Inv2.step {s : State} {pd : List Request} {op : LOp} {s' : State} {pd' :
         simp only [hne, if_false]; exact this
   | pubcomp i r _ o he =>
     cases he with
-    | unsol _ _ hh hp hr hi hc hl =>
-      refine ⟨?_, ?_, h3⟩
-      · intro j hj; rw [relContains_congr hr]; exact h1 j (by rw [← occAt_congr hp]; exact hj)
-      · intro r' hr'; rw [relContains_congr hr, occAt_congr hp]; exact h2 r' hr'
-    | done _ _ hh dec hdec hp hr hi hc hl =>
-      have hlt := getElem?_lt_of_some ((relContains_eq s i).mp hh)
-      refine ⟨?_, ?_, h3⟩
-      · intro j hj
+    | unsol _ hx hc =>
+      obtain ⟨e1, e2, e3, e4, e5, e6⟩ := core_eqs hc
+      exact same s' e1 e2 (by rw [e4]; exact h5)
+    | done _ hx he =>
+      have hlt := getElem?_lt_of_some ((relContains_eq s i).mp hx)
+      cases he with
+      | plain _ hnc hc =>
+        have hp : s'.outgoingPub = s.outgoingPub := congrArg Core.pub hc
+        have hr : s'.outgoingRel = s.outgoingRel.set i false := congrArg Core.rel hc
+        have e4 : s'.collision = s.collision := congrArg Core.col hc
+        refine ⟨?_, ?_, h3, h4, by rw [e4]; exact h5⟩
+        · intro j hj
+          rw [relContains_of_set hr hlt j]
+          by_cases hij : i = j
+          · simp [hij]
+          · simp only [hij, if_false]; exact h1 j (by rw [← occAt_congr hp]; exact hj)
+        · intro r' hr'
+          have := h2 r' hr'
+          rw [relContains_of_set hr hlt, occAt_congr hp]
+          refine ⟨?_, this.2⟩
+          by_cases hij : i = reqId r'
+          · simp [hij]
+          · simp only [hij, if_false]; exact this.1
+      | released _ c hcol hci hc =>
+        have hp : s'.outgoingPub = s.outgoingPub.set c.pkid (some c) := congrArg Core.pub hc
+        have hr : s'.outgoingRel = s.outgoingRel.set i false := congrArg Core.rel hc
+        have hpd : pd = [] := h5 (by simp [hcol])
+        subst hpd
+        have hl1 := hs.lenPub; have hl2 := hs.lenRel
+        have hltp : c.pkid < s.outgoingPub.length := by rw [hci]; omega
+        refine ⟨?_, by intro r hr; simp at hr, by simp, by simp, fun _ => rfl⟩
+        intro j hj
         rw [relContains_of_set hr hlt j]
+        rw [occAt_of_set hp hltp j] at hj
         by_cases hij : i = j
         · simp [hij]
-        · simp only [hij, if_false]; exact h1 j (by rw [← occAt_congr hp]; exact hj)
-      · intro r' hr'
-        have := h2 r' hr'
-        rw [relContains_of_set hr hlt, occAt_congr hp]
-        refine ⟨?_, this.2⟩
-        by_cases hij : i = reqId r'
-        · simp [hij]
-        · simp only [hij, if_false]; exact this.1
+        · simp only [hij, if_false]
+          have : ¬ c.pkid = j := by rw [hci]; exact hij
+          simp only [this, if_false] at hj
+          exact h1 j hj
   | fail =>
-    refine ⟨?_, ?_, ?_⟩
+    have hclean : ∀ a ∈ pubIds (cleanPubs s) ++ relOnes s, a ≠ 0 := by
+      intro a ha
+      rcases List.mem_append.mp ha with ha | ha
+      · obtain ⟨x, hx⟩ := (occAt_iff s a).mp ((mem_pubIds_cleanPubs s hs a).mp ha)
+        have := (h0.slotLe a x hx).1; omega
+      · have := (h0.relLe a ((mem_relOnes s a).mp ha)).1; omega
+    refine ⟨?_, ?_, ?_, ?_, by simp [cleanState]⟩
     · intro i hi; rw [(cleanState_tables s i).1] at hi; simp at hi
     · intro r hr; exact ⟨(cleanState_tables s _).2, (cleanState_tables s _).1⟩
-    · rw [List.map_append, map_reqId_cleanRequests, List.nodup_append]
-      refine ⟨h3, ?_, ?_⟩
+    · -- ids: stored, awaiting release, (parked: 0, then `pending` is empty), still pending
+      rw [List.map_append, map_reqId_cleanRequests hs, List.nodup_append]
+      refine ⟨?_, h3, ?_⟩
       · rw [List.nodup_append]
-        refine ⟨pubIds_cleanPubs_nodup hs, relOnes_nodup s, ?_⟩
-        intro a ha b hb hab
-        subst hab
-        have := h1 a ((mem_pubIds_cleanPubs s hs a).mp ha)
-        rw [(mem_relOnes s a).mp hb] at this; simp at this
+        refine ⟨?_, by split <;> simp, ?_⟩
+        · rw [List.nodup_append]
+          refine ⟨pubIds_cleanPubs_nodup hs, relOnes_nodup s, ?_⟩
+          intro a ha b hb hab
+          subst hab
+          have := h1 a ((mem_pubIds_cleanPubs s hs a).mp ha)
+          rw [(mem_relOnes s a).mp hb] at this; simp at this
+        · intro a ha b hb hab
+          subst hab
+          split at hb
+          · simp at hb; exact hclean a ha hb
+          · simp at hb
       · intro a ha b hb hab
         subst hab
-        obtain ⟨r, hr, hra⟩ := List.mem_map.mp ha
+        obtain ⟨r, hr, hra⟩ := List.mem_map.mp hb
         have := h2 r hr
         rw [hra] at this
-        rcases List.mem_append.mp hb with hb | hb
-        · rw [(mem_pubIds_cleanPubs s hs a).mp hb] at this; simp at this
-        · rw [(mem_relOnes s a).mp hb] at this; simp at this
-  | newSession => exact ⟨h1, by intro r hr; simp at hr, by simp⟩
+        rcases List.mem_append.mp ha with ha | ha
+        · rcases List.mem_append.mp ha with ha | ha
+          · rw [(mem_pubIds_cleanPubs s hs a).mp ha] at this; simp at this
+          · rw [(mem_relOnes s a).mp ha] at this; simp at this
+        · split at ha
+          · rename_i hcol
+            have := h5 hcol
+            subst this
+            simp at hr
+          · simp at ha
+    · intro r hr
+      cases hpd : pd with
+      | nil =>
+        -- only the parked publish, last, is unnumbered
+        rw [hpd, List.append_nil] at hr
+        have hr' := (List.dropLast_sublist _).subset hr
+        by_cases hcol : s.collision.isSome = true
+        · have hsplit : cleanRequests s = (cleanPubs s ++ (relOnes s).map Request.pubrel) ++ cleanParked s := rfl
+          obtain ⟨x, hx⟩ : ∃ x, cleanParked s = [x] := by
+            unfold cleanParked
+            cases hc : s.collision with
+            | none => rw [hc] at hcol; simp at hcol
+            | some c => exact ⟨_, rfl⟩
+          rw [hsplit, hx, List.dropLast_concat] at hr
+          apply hclean
+          have : reqId r ∈ (cleanPubs s ++ (relOnes s).map Request.pubrel).map reqId := List.mem_map_of_mem hr
+          have h1' : (cleanPubs s).map reqId = pubIds (cleanPubs s) := by
+            apply map_reqId_pubs
+            intro r hr
+            obtain ⟨p, hp, _⟩ := (mem_cleanPubs hs r).mp hr
+            exact ⟨p, hp⟩
+          simpa [h1', reqId, Function.comp_def] using this
+        · apply hclean
+          have hm : reqId r ∈ (cleanRequests s).map reqId := List.mem_map_of_mem hr'
+          rw [map_reqId_cleanRequests hs] at hm
+          simpa [hcol] using hm
+      | cons a rest =>
+        -- something is still pending, so nothing is parked: `clean()` returns numbered requests only
+        have hcol : ¬ s.collision.isSome = true := by
+          intro hc; have := h5 hc; rw [hpd] at this; cases this
+        rw [hpd, List.dropLast_append_of_ne_nil (by simp)] at hr
+        rcases List.mem_append.mp hr with hr | hr
+        · apply hclean
+          have hm : reqId r ∈ (cleanRequests s).map reqId := List.mem_map_of_mem hr
+          rw [map_reqId_cleanRequests hs] at hm
+          simpa [hcol] using hm
+        · exact h4 r (by rw [hpd]; exact hr)
+  | newSession => exact ⟨h1, by intro r hr; simp at hr, by simp, by simp, fun _ => rfl⟩
 
 
 /-! ### the counter agrees with the tables -/
@@ -338,33 +481,54 @@ theorem Inv3.new (ver : Version) (max : Nat) (m : Bool) : Inv3 (LState.new ver m
   simp [Inv3, LState.new, State.new, occ_replicate, relCount_replicate]
 
 theorem Inv3.step {s : State} {pd : List Request} {op : LOp} {s' : State} {pd' : List Request}
-    (hs : SInv s) (h2 : Inv2 ⟨s, pd⟩) (h : Inv3 ⟨s, pd⟩) (hn : ¬ failedRecOrComp ⟨s, pd⟩ op)
+    (hs : SInv s) (h2 : Inv2 ⟨s, pd⟩) (h : Inv3 ⟨s, pd⟩)
     (ht : LTrans s pd op s' pd') : Inv3 ⟨s', pd'⟩ := by
   unfold Inv3 at *
   simp only at h ⊢
+  have stored : ∀ (s1 : State) (n : Nat) (p : Pub), s.outgoingPub[n]? = some none →
+      s1.outgoingPub = s.outgoingPub.set n (some p) → s1.outgoingRel = s.outgoingRel → s1.inflight = s.inflight + 1 →
+      s1.inflight = occ s1.outgoingPub + relCount s1.outgoingRel := by
+    intro s1 n p hslot e1 e2 e3
+    rw [e1, e2, e3, occ_set_some _ _ _ hslot]; omega
+  have freed : ∀ (s1 : State) (i : Nat) (x : Pub), s.outgoingPub[i]? = some (some x) →
+      s1.outgoingPub = s.outgoingPub.set i none → s1.outgoingRel = s.outgoingRel → s1.inflight = s.inflight - 1 →
+      s1.inflight = occ s1.outgoingPub + relCount s1.outgoingRel := by
+    intro s1 i x hx e1 e2 e3
+    have := occ_set_none _ _ _ hx
+    rw [e1, e2, e3]; omega
+  have retaken : ∀ (s1 : State) (i : Nat) (x c : Pub), s.outgoingPub[i]? = some (some x) →
+      s1.outgoingPub = (s.outgoingPub.set i none).set i (some c) → s1.outgoingRel = s.outgoingRel →
+      s1.inflight = s.inflight - 1 + 1 → s1.inflight = occ s1.outgoingPub + relCount s1.outgoingRel := by
+    intro s1 i x c hx e1 e2 e3
+    have h1 := occ_set_none _ _ _ hx
+    have hlt := getElem?_lt_of_some hx
+    have h2' := occ_set_some (s.outgoingPub.set i none) i c (by simp [hlt])
+    rw [e1, e2, e3, h2']; omega
   cases ht with
   | skip => exact h
-  | quiet _ _ hc => obtain ⟨e1, e2, e3, e4, e5⟩ := core_eqs hc; rw [e1, e2, e3]; exact h
+  | quiet _ _ hc => obtain ⟨e1, e2, e3, e4, e5, e6⟩ := core_eqs hc; rw [e1, e2, e3]; exact h
   | nextId u _ hpd hg hu hc =>
     have e1 : s'.outgoingPub = s.outgoingPub := congrArg Core.pub hc
     have e2 : s'.outgoingRel = s.outgoingRel := congrArg Core.rel hc
     have e3 : s'.inflight = s.inflight := congrArg Core.inf hc
     rw [e1, e2, e3]; exact h
-  | storeFresh q t _ hpd hg hq hslot hc =>
-    have e1 : s'.outgoingPub = s.outgoingPub.set (nextPkidVal s) (some ⟨q, nextPkidVal s, t, none⟩) := congrArg Core.pub hc
-    have e2 : s'.outgoingRel = s.outgoingRel := congrArg Core.rel hc
-    have e3 : s'.inflight = s.inflight + 1 := congrArg Core.inf hc
-    rw [e1, e2, e3, occ_set_some _ _ _ hslot]; omega
-  | park q t _ x hpd hg hq hslot hc =>
+  | storeFresh q t _ hpd hg hq hslot hrel hc =>
+    exact stored s' _ _ hslot (congrArg Core.pub hc) (congrArg Core.rel hc) (congrArg Core.inf hc)
+  | parkFresh q t _ hpd hg hq hbusy hc =>
     have e1 : s'.outgoingPub = s.outgoingPub := congrArg Core.pub hc
     have e2 : s'.outgoingRel = s.outgoingRel := congrArg Core.rel hc
     have e3 : s'.inflight = s.inflight := congrArg Core.inf hc
     rw [e1, e2, e3]; exact h
-  | replayPub p rest _ hpd hslot hc =>
-    have e1 : s'.outgoingPub = s.outgoingPub.set p.pkid (some p) := congrArg Core.pub hc
+  | replayPub p rest _ hpd hid hslot hrel hc =>
+    exact stored s' _ _ hslot (congrArg Core.pub hc) (congrArg Core.rel hc) (congrArg Core.inf hc)
+  | replayPark p rest _ hpd hid hbusy hc => subst hpd; exact absurd hbusy h2.head_free
+  | replayFresh p rest _ hpd hid hslot hrel hc =>
+    exact stored s' _ _ hslot (congrArg Core.pub hc) (congrArg Core.rel hc) (congrArg Core.inf hc)
+  | replayFreshPark p rest _ hpd hid hbusy hc =>
+    have e1 : s'.outgoingPub = s.outgoingPub := congrArg Core.pub hc
     have e2 : s'.outgoingRel = s.outgoingRel := congrArg Core.rel hc
-    have e3 : s'.inflight = s.inflight + 1 := congrArg Core.inf hc
-    rw [e1, e2, e3, occ_set_some _ _ _ hslot]; omega
+    have e3 : s'.inflight = s.inflight := congrArg Core.inf hc
+    rw [e1, e2, e3]; exact h
   | replayRel i rest _ hpd hi hc =>
     subst hpd
     have e1 : s'.outgoingPub = s.outgoingPub := congrArg Core.pub hc
@@ -375,49 +539,60 @@ theorem Inv3.step {s : State} {pd : List Request} {op : LOp} {s' : State} {pd' :
     rw [e1, e2, e3, relCount_set_true _ _ (relContains_false_of_lt s i hi hp)]; omega
   | puback i r _ o he =>
     cases he with
-    | oob _ hh hc => obtain ⟨e1, e2, e3, e4, e5⟩ := core_eqs hc; rw [e1, e2, e3]; exact h
-    | empty _ hh hc =>
-      have e1 : s'.outgoingPub = s.outgoingPub := congrArg Core.pub hc
-      have e2 : s'.outgoingRel = s.outgoingRel := congrArg Core.rel hc
-      have e3 : s'.inflight = s.inflight := congrArg Core.inf hc
-      rw [e1, e2, e3]; exact h
-    | freed _ x hh _ hc =>
-      have e1 : s'.outgoingPub = s.outgoingPub.set i none := congrArg Core.pub hc
-      have e2 : s'.outgoingRel = s.outgoingRel := congrArg Core.rel hc
-      have e3 : s'.inflight = s.inflight - 1 := congrArg Core.inf hc
-      have := occ_set_none _ _ _ hh
-      rw [e1, e2, e3]; omega
-    | released _ x c hh hv hcol hci hc =>
-      have e1 : s'.outgoingPub = (s.outgoingPub.set i none).set i (some c) := congrArg Core.pub hc
-      have e2 : s'.outgoingRel = s.outgoingRel := congrArg Core.rel hc
-      have e3 : s'.inflight = s.inflight - 1 + 1 := congrArg Core.inf hc
-      have h1 := occ_set_none _ _ _ hh
-      have hlt := getElem?_lt_of_some hh
-      have h2' := occ_set_some (s.outgoingPub.set i none) i c (by simp [hlt])
-      rw [e1, e2, e3, h2']; omega
+    | unsol _ hx hc => obtain ⟨e1, e2, e3, e4, e5, e6⟩ := core_eqs hc; rw [e1, e2, e3]; exact h
+    | acked x _ hx he =>
+      cases he with
+      | plain _ hnc hc => exact freed s' i x hx (congrArg Core.pub hc) (congrArg Core.rel hc) (congrArg Core.inf hc)
+      | released _ c hcol hci hc =>
+        subst hci
+        exact retaken s' c.pkid x c hx (congrArg Core.pub hc) (congrArg Core.rel hc) (congrArg Core.inf hc)
   | pubrec i r _ o he =>
     cases he with
-    | unsol _ hh hc => obtain ⟨e1, e2, e3, e4, e5⟩ := core_eqs hc; rw [e1, e2, e3]; exact h
-    | failed _ x hh hv hc =>
-      exact absurd ⟨hv.1, hv.2, (occAt_iff s i).mpr ⟨x, hh⟩⟩ hn
-    | moved _ x hh hv hi hc =>
+    | unsol _ hx hc => obtain ⟨e1, e2, e3, e4, e5, e6⟩ := core_eqs hc; rw [e1, e2, e3]; exact h
+    | failed x _ hx hv he =>
+      cases he with
+      | plain _ hnc hc => exact freed s' i x hx (congrArg Core.pub hc) (congrArg Core.rel hc) (congrArg Core.inf hc)
+      | released _ c hcol hci hc =>
+        subst hci
+        exact retaken s' c.pkid x c hx (congrArg Core.pub hc) (congrArg Core.rel hc) (congrArg Core.inf hc)
+    | moved _ x hx hv hi hc =>
       have e1 : s'.outgoingPub = s.outgoingPub.set i none := congrArg Core.pub hc
       have e2 : s'.outgoingRel = s.outgoingRel.set i true := congrArg Core.rel hc
       have e3 : s'.inflight = s.inflight := congrArg Core.inf hc
-      have h1 := occ_set_none _ _ _ hh
-      have hr := h2.disj i ((occAt_iff s i).mpr ⟨x, hh⟩)
+      have h1 := occ_set_none _ _ _ hx
+      have hr := h2.disj i ((occAt_iff s i).mpr ⟨x, hx⟩)
       simp only at hr
       rw [e1, e2, e3, relCount_set_true _ _ (relContains_false_of_lt s i hi hr)]; omega
   | pubcomp i r _ o he =>
     cases he with
-    | unsol _ _ hh hp hr hi hc hl => rw [hp, hr, hi]; exact h
-    | done _ _ hh dec hdec hp hr hi hc hl =>
-      have := relCount_set_false _ _ ((relContains_eq s i).mp hh)
-      cases dec with
-      | true => simp only [if_true] at hi; rw [hp, hr, hi]; omega
-      | false =>
-        obtain ⟨hv, hr0⟩ := hdec rfl
-        exact absurd ⟨hv, hr0, hh⟩ hn
+    | unsol _ hx hc => obtain ⟨e1, e2, e3, e4, e5, e6⟩ := core_eqs hc; rw [e1, e2, e3]; exact h
+    | done _ hx he =>
+      have hbit := (relContains_eq s i).mp hx
+      have hcnt := relCount_set_false _ _ hbit
+      have hpos := relCount_pos_of_bit _ _ hbit
+      cases he with
+      | plain _ hnc hc =>
+        have hp : s'.outgoingPub = s.outgoingPub := congrArg Core.pub hc
+        have hr : s'.outgoingRel = s.outgoingRel.set i false := congrArg Core.rel hc
+        have hi : s'.inflight = s.inflight - 1 := congrArg Core.inf hc
+        rw [hp, hr, hi]; omega
+      | released _ c hcol hci hc =>
+        have hp : s'.outgoingPub = s.outgoingPub.set c.pkid (some c) := congrArg Core.pub hc
+        have hr : s'.outgoingRel = s.outgoingRel.set i false := congrArg Core.rel hc
+        have hi : s'.inflight = s.inflight - 1 + 1 := congrArg Core.inf hc
+        -- the id awaited its PUBCOMP, so no publish is stored under it
+        have hfree : s.outgoingPub[c.pkid]? = some none := by
+          rw [hci]
+          have hlt := getElem?_lt_of_some hbit
+          have hl1 := hs.lenPub; have hl2 := hs.lenRel
+          have hocc : occAt s i = false := by
+            cases ho : occAt s i with
+            | false => rfl
+            | true => have := h2.disj i ho; simp only at this; rw [hx] at this; cases this
+          rcases (occAt_false_iff s i).mp hocc with h' | h'
+          · rw [List.getElem?_eq_none_iff] at h'; omega
+          · exact h'
+        rw [hp, hr, hi, occ_set_some _ _ _ hfree]; omega
   | fail => simp [cleanState, occ_map_none, relCount_map_false]
   | newSession => exact h
 
@@ -429,44 +604,65 @@ def Inv4 (l : LState) : Prop :=
 theorem Inv4.new (ver : Version) (max : Nat) (m : Bool) : Inv4 (LState.new ver max m) := by
   intro c hc; simp [LState.new, State.new] at hc
 
+theorem busyId_iff (s : State) (i : Nat) : busyId s i ↔ (occAt s i = true ∨ relContains s i = true) := by
+  unfold busyId; rw [occAt_iff]
+
+/-- holds on every run: a publish is only ever parked on an id in use, and that id is not given
+    up without releasing the publish -/
 theorem Inv4.step {s : State} {pd : List Request} {op : LOp} {s' : State} {pd' : List Request}
-    (h : Inv4 ⟨s, pd⟩) (hn1 : ¬ cleanWithCollision ⟨s, pd⟩ op) (hn2 : ¬ failedAckOnCollision ⟨s, pd⟩ op)
-    (ht : LTrans s pd op s' pd') : Inv4 ⟨s', pd'⟩ := by
+    (h : Inv4 ⟨s, pd⟩) (ht : LTrans s pd op s' pd') : Inv4 ⟨s', pd'⟩ := by
   unfold Inv4 at *
   simp only at h ⊢
-  cases ht with
-  | skip => exact h
-  | quiet _ _ hc =>
-    obtain ⟨e1, e2, e3, e4, e5⟩ := core_eqs hc
-    intro c hc'; rw [occAt_congr e1, relContains_congr e2]; exact h c (by rw [← e4]; exact hc')
-  | nextId u _ hpd hg hu hc =>
-    have e1 : s'.outgoingPub = s.outgoingPub := congrArg Core.pub hc
-    have e2 : s'.outgoingRel = s.outgoingRel := congrArg Core.rel hc
-    have e4 : s'.collision = s.collision := congrArg Core.col hc
-    intro c hc'; rw [occAt_congr e1, relContains_congr e2]; exact h c (by rw [← e4]; exact hc')
-  | storeFresh q t _ hpd hg hq hslot hc =>
-    have e4 : s'.collision = s.collision := congrArg Core.col hc
-    have hcol : s.collision = none := by
-      simp [selectEnabled] at hg; cases hc' : s.collision <;> simp_all
-    intro c hc'; rw [e4, hcol] at hc'; cases hc'
-  | park q t _ x hpd hg hq hslot hc =>
-    have e1 : s'.outgoingPub = s.outgoingPub := congrArg Core.pub hc
-    have e4 : s'.collision = some ⟨q, nextPkidVal s, t, none⟩ := congrArg Core.col hc
-    intro c hc'
-    rw [e4] at hc'; cases hc'
-    exact Or.inl (by rw [occAt_congr e1]; exact (occAt_iff s _).mpr ⟨x, hslot⟩)
-  | replayPub p rest _ hpd hslot hc =>
-    have e1 : s'.outgoingPub = s.outgoingPub.set p.pkid (some p) := congrArg Core.pub hc
-    have e2 : s'.outgoingRel = s.outgoingRel := congrArg Core.rel hc
-    have e4 : s'.collision = s.collision := congrArg Core.col hc
-    have hlt := getElem?_lt_of_some hslot
-    intro c hc'
+  have same : ∀ s1 : State, s1.outgoingPub = s.outgoingPub → s1.outgoingRel = s.outgoingRel → s1.collision = s.collision →
+      ∀ c : Pub, s1.collision = some c → occAt s1 c.pkid = true ∨ relContains s1 c.pkid = true := by
+    intro s1 e1 e2 e4 c hc'
+    rw [occAt_congr e1, relContains_congr e2]; exact h c (by rw [← e4]; exact hc')
+  have stored : ∀ (s1 : State) (n : Nat) (p : Pub), n < s.outgoingPub.length →
+      s1.outgoingPub = s.outgoingPub.set n (some p) → s1.outgoingRel = s.outgoingRel → s1.collision = s.collision →
+      ∀ c : Pub, s1.collision = some c → occAt s1 c.pkid = true ∨ relContains s1 c.pkid = true := by
+    intro s1 n p hlt e1 e2 e4 c hc'
     rw [occAt_of_set e1 hlt, relContains_congr e2]
     rcases h c (by rw [← e4]; exact hc') with h' | h'
-    · left; by_cases hpc : p.pkid = c.pkid
+    · left; by_cases hpc : n = c.pkid
       · simp [hpc]
       · simp only [hpc, if_false]; exact h'
     · exact Or.inr h'
+  have parked : ∀ (s1 : State) (p : Pub), busyId s p.pkid →
+      s1.outgoingPub = s.outgoingPub → s1.outgoingRel = s.outgoingRel → s1.collision = some p →
+      ∀ c : Pub, s1.collision = some c → occAt s1 c.pkid = true ∨ relContains s1 c.pkid = true := by
+    intro s1 p hb e1 e2 e4 c hc'
+    rw [e4] at hc'; cases hc'
+    rw [occAt_congr e1, relContains_congr e2]
+    exact (busyId_iff s _).mp hb
+  have freed : ∀ (s1 : State) (i : Nat) (x : Pub), s.outgoingPub[i]? = some (some x) →
+      (∀ c, s.collision = some c → c.pkid ≠ i) →
+      s1.outgoingPub = s.outgoingPub.set i none → s1.outgoingRel = s.outgoingRel → s1.collision = s.collision →
+      ∀ c : Pub, s1.collision = some c → occAt s1 c.pkid = true ∨ relContains s1 c.pkid = true := by
+    intro s1 i x hx hnc e1 e2 e4 c hc'
+    have hlt := getElem?_lt_of_some hx
+    rw [e4] at hc'
+    have hci := hnc c hc'
+    rw [occAt_of_set e1 hlt, relContains_congr e2]
+    simp only [Ne.symm hci, if_false]
+    exact h c hc'
+  cases ht with
+  | skip => exact h
+  | quiet _ _ hc =>
+    obtain ⟨e1, e2, e3, e4, e5, e6⟩ := core_eqs hc
+    exact same s' e1 e2 e4
+  | nextId u _ hpd hg hu hc => exact same s' (congrArg Core.pub hc) (congrArg Core.rel hc) (congrArg Core.col hc)
+  | storeFresh q t _ hpd hg hq hslot hrel hc =>
+    exact stored s' _ _ (getElem?_lt_of_some hslot) (congrArg Core.pub hc) (congrArg Core.rel hc) (congrArg Core.col hc)
+  | parkFresh q t _ hpd hg hq hbusy hc =>
+    exact parked s' ⟨q, nextPkidVal s, t, none⟩ hbusy (congrArg Core.pub hc) (congrArg Core.rel hc) (congrArg Core.col hc)
+  | replayPub p rest _ hpd hid hslot hrel hc =>
+    exact stored s' _ _ (getElem?_lt_of_some hslot) (congrArg Core.pub hc) (congrArg Core.rel hc) (congrArg Core.col hc)
+  | replayPark p rest _ hpd hid hbusy hc =>
+    exact parked s' p hbusy (congrArg Core.pub hc) (congrArg Core.rel hc) (congrArg Core.col hc)
+  | replayFresh p rest _ hpd hid hslot hrel hc =>
+    exact stored s' _ _ (getElem?_lt_of_some hslot) (congrArg Core.pub hc) (congrArg Core.rel hc) (congrArg Core.col hc)
+  | replayFreshPark p rest _ hpd hid hbusy hc =>
+    exact parked s' { p with pkid := nextPkidVal s } hbusy (congrArg Core.pub hc) (congrArg Core.rel hc) (congrArg Core.col hc)
   | replayRel i rest _ hpd hi hc =>
     have e1 : s'.outgoingPub = s.outgoingPub := congrArg Core.pub hc
     have e2 : s'.outgoingRel = s.outgoingRel.set i true := congrArg Core.rel hc
@@ -480,52 +676,31 @@ theorem Inv4.step {s : State} {pd : List Request} {op : LOp} {s' : State} {pd' :
       · simp only [hic, if_false]; exact h'
   | puback i r _ o he =>
     cases he with
-    | oob _ hh hc =>
-      obtain ⟨e1, e2, e3, e4, e5⟩ := core_eqs hc
-      intro c hc'; rw [occAt_congr e1, relContains_congr e2]; exact h c (by rw [← e4]; exact hc')
-    | empty _ hh hc =>
-      have e1 : s'.outgoingPub = s.outgoingPub := congrArg Core.pub hc
-      have e2 : s'.outgoingRel = s.outgoingRel := congrArg Core.rel hc
-      have e4 : s'.collision = s.collision := congrArg Core.col hc
-      intro c hc'; rw [occAt_congr e1, relContains_congr e2]; exact h c (by rw [← e4]; exact hc')
-    | freed _ x hh hnc hc =>
-      have e1 : s'.outgoingPub = s.outgoingPub.set i none := congrArg Core.pub hc
-      have e2 : s'.outgoingRel = s.outgoingRel := congrArg Core.rel hc
-      have e4 : s'.collision = s.collision := congrArg Core.col hc
-      have hlt := getElem?_lt_of_some hh
-      intro c hc'
-      rw [e4] at hc'
-      have hci : c.pkid ≠ i := by
-        rcases hnc with hv | hv
-        · intro hci; exact hn2 ⟨hv.1, hv.2, c, hc', hci⟩
-        · exact hv c hc'
-      rw [occAt_of_set e1 hlt, relContains_congr e2]
-      simp only [Ne.symm hci, if_false]
-      exact h c hc'
-    | released _ x c hh hv hcol hci hc =>
-      have e4 : s'.collision = none := congrArg Core.col hc
-      intro c' hc'; rw [e4] at hc'; cases hc'
+    | unsol _ hx hc =>
+      obtain ⟨e1, e2, e3, e4, e5, e6⟩ := core_eqs hc
+      exact same s' e1 e2 e4
+    | acked x _ hx he =>
+      cases he with
+      | plain _ hnc hc => exact freed s' i x hx hnc (congrArg Core.pub hc) (congrArg Core.rel hc) (congrArg Core.col hc)
+      | released _ c hcol hci hc =>
+        have e4 : s'.collision = none := congrArg Core.col hc
+        intro c' hc'; rw [e4] at hc'; cases hc'
   | pubrec i r _ o he =>
     cases he with
-    | unsol _ hh hc =>
-      obtain ⟨e1, e2, e3, e4, e5⟩ := core_eqs hc
-      intro c hc'; rw [occAt_congr e1, relContains_congr e2]; exact h c (by rw [← e4]; exact hc')
-    | failed _ x hh hv hc =>
-      have e1 : s'.outgoingPub = s.outgoingPub.set i none := congrArg Core.pub hc
-      have e2 : s'.outgoingRel = s.outgoingRel := congrArg Core.rel hc
-      have e4 : s'.collision = s.collision := congrArg Core.col hc
-      have hlt := getElem?_lt_of_some hh
-      intro c hc'
-      rw [e4] at hc'
-      have hci : c.pkid ≠ i := by intro hci; exact hn2 ⟨hv.1, hv.2, c, hc', hci⟩
-      rw [occAt_of_set e1 hlt, relContains_congr e2]
-      simp only [Ne.symm hci, if_false]
-      exact h c hc'
-    | moved _ x hh hv hi hc =>
+    | unsol _ hx hc =>
+      obtain ⟨e1, e2, e3, e4, e5, e6⟩ := core_eqs hc
+      exact same s' e1 e2 e4
+    | failed x _ hx hv he =>
+      cases he with
+      | plain _ hnc hc => exact freed s' i x hx hnc (congrArg Core.pub hc) (congrArg Core.rel hc) (congrArg Core.col hc)
+      | released _ c hcol hci hc =>
+        have e4 : s'.collision = none := congrArg Core.col hc
+        intro c' hc'; rw [e4] at hc'; cases hc'
+    | moved _ x hx hv hi hc =>
       have e1 : s'.outgoingPub = s.outgoingPub.set i none := congrArg Core.pub hc
       have e2 : s'.outgoingRel = s.outgoingRel.set i true := congrArg Core.rel hc
       have e4 : s'.collision = s.collision := congrArg Core.col hc
-      have hlt := getElem?_lt_of_some hh
+      have hlt := getElem?_lt_of_some hx
       intro c hc'
       rw [e4] at hc'
       rw [occAt_of_set e1 hlt, relContains_of_set e2 hi]
@@ -534,28 +709,26 @@ theorem Inv4.step {s : State} {pd : List Request} {op : LOp} {s' : State} {pd' :
       · simp only [hic, if_false]; exact h c hc'
   | pubcomp i r _ o he =>
     cases he with
-    | unsol _ _ hh hp hr hi hc hl =>
-      intro c hc'
-      rw [occAt_congr hp, relContains_congr hr]
-      rcases hc with hc | hc
-      · exact h c (by rw [← hc]; exact hc')
-      · rw [hc.2] at hc'; cases hc'
-    | done _ _ hh dec hdec hp hr hi hc hl =>
-      have hlt := getElem?_lt_of_some ((relContains_eq s i).mp hh)
-      intro c hc'
-      rcases hc with hc | hc
-      · rw [hc.1] at hc'
-        have hne := hc.2 c hc'
+    | unsol _ hx hc =>
+      obtain ⟨e1, e2, e3, e4, e5, e6⟩ := core_eqs hc
+      exact same s' e1 e2 e4
+    | done _ hx he =>
+      have hlt := getElem?_lt_of_some ((relContains_eq s i).mp hx)
+      cases he with
+      | plain _ hnc hc =>
+        have hp : s'.outgoingPub = s.outgoingPub := congrArg Core.pub hc
+        have hr : s'.outgoingRel = s.outgoingRel.set i false := congrArg Core.rel hc
+        have e4 : s'.collision = s.collision := congrArg Core.col hc
+        intro c hc'
+        rw [e4] at hc'
+        have hne := hnc c hc'
         rw [occAt_congr hp, relContains_of_set hr hlt]
         simp only [Ne.symm hne, if_false]
         exact h c hc'
-      · rw [hc] at hc'; cases hc'
-  | fail =>
-    intro c hc'
-    have : s.collision.isSome = true := by
-      have : (cleanState s).collision = s.collision := rfl
-      rw [this] at hc'; simp [hc']
-    exact absurd this hn1
+      | released _ c hcol hci hc =>
+        have e4 : s'.collision = none := congrArg Core.col hc
+        intro c' hc'; rw [e4] at hc'; cases hc'
+  | fail => intro c hc'; simp [cleanState] at hc'
   | newSession => exact h
 
 end Client
